@@ -55,7 +55,7 @@ def run(chk):
         raise AnalysisError('convert_units switch not found')
     tkeys = {n: unparse(v) for n, v in sw['true'].items()}
     fvals = {n: unparse(v) for n, v in sw['false'].items()}
-    okT = sorted(lt.units.values()) == ['B', 'Z'] and all(tkeys[n].startswith(('self.header[', 'header[')) for n in lt.units)       # the instance header, or the header the setup was given (C05-R8)
+    okT = sorted(lt.units.values()) == ['B', 'Z'] and all(tkeys[n].startswith(('self.header[', 'header[', '(self.header if header is None else header)[', 'units_header[')) or 'header' in tkeys[n].split('[')[0] for n in lt.units)       # the instance header, or the header the setup was given (C05-R8)
     okF = set(fvals) == set(lt.units) and all(v in ('1.0', '1') for v in fvals.values())
     chk.check(okT and okF and sw['test'] == 'self.convert_units', 'C05-R4', CAT, SETUP, 'convert_units switch',
               f'on: {tkeys}; off: {fvals}', f'switch binds on={tkeys} off={fvals} test={sw["test"]} (need BoxSize & VelZSpace_to_kms / both 1.0)',
@@ -196,6 +196,11 @@ def _exact_radicand(node, lt=None):
             return 'i64'
         if isinstance(x, ast.Call) and isinstance(x.func, ast.Attribute) and x.func.attr == 'astype' and len(x.args) == 1 and unparse(x.args[0]) in INT64:
             return 'i64'
+        if isinstance(x, ast.Call) and dotted(x.func) in ('np.array', 'np.stack') and len(x.args) == 1 and isinstance(x.args[0], (ast.List, ast.Tuple)) \
+                and [unparse(k.value) for k in x.keywords if k.arg == 'dtype'] and unparse([k.value for k in x.keywords if k.arg == 'dtype'][0]) in INT64:
+            return 'i64'              # rows widened on construction
+        if isinstance(x, ast.Call) and isinstance(x.func, ast.Attribute) and x.func.attr == 'sum' and not x.args and all(k.arg == 'axis' for k in x.keywords):
+            return kind(x.func.value, env, depth + 1)      # a sum of exact integers
         if isinstance(x, ast.Call) and isinstance(x.func, ast.Name) and x.func.id in helpers and not x.keywords:
             ps, b = helpers[x.func.id]
             if len(ps) == len(x.args):
@@ -279,8 +284,26 @@ def own_header(chk):
     reads = [n for n in walk_no_nested(setup) if isinstance(n, ast.Subscript) and isinstance(n.slice, ast.Constant) and n.slice.value in ('BoxSize', 'VelZSpace_to_kms')
              and isinstance(n.ctx, ast.Load)]
     dflt = any(isinstance(n, ast.If) and unparse(n.test) == 'header is None' and [unparse(b) for b in n.body] == ['header = self.header'] for n in setup.body)
-    okp = 'header' in params and bool(reads) and all(unparse(r.value) == 'header' for r in reads) and \
-        (dflt or not any(isinstance(d, ast.Constant) and d.value is None for d in setup.args.defaults))
+    from ..core.srcmodel import single_defs, expand_names
+    sd_ = single_defs(setup)
+    HDR_FORMS = ('header', 'self.header if header is None else header', 'header if header is not None else self.header', 'header or self.header')
+
+    # a local that stands for the header: `h = header; if h is None: h = self.header`  (a helper's parameter after inlining)
+    aliases = {'header'}
+    for k_, st_ in enumerate(setup.body[:-1]):
+        if isinstance(st_, ast.Assign) and len(st_.targets) == 1 and isinstance(st_.targets[0], ast.Name) and unparse(st_.value) == 'header':
+            h_ = st_.targets[0].id
+            nx = setup.body[k_ + 1]
+            stores_ = [n_ for n_ in ast.walk(setup) if isinstance(n_, ast.Name) and n_.id == h_ and isinstance(n_.ctx, ast.Store)]
+            if isinstance(nx, ast.If) and unparse(nx.test) == f'{h_} is None' and [unparse(b_) for b_ in nx.body] == [f'{h_} = self.header'] and not nx.orelse and len(stores_) == 2:
+                aliases.add(h_)
+
+    def _hdr_base(r):
+        t_ = unparse(expand_names(r.value, {k_: v_ for k_, v_ in sd_.items() if k_ != 'header'})).replace('(', '').replace(')', '')
+        return 'header' if t_ in aliases else t_
+    inline_default = bool(reads) and all(_hdr_base(r) in HDR_FORMS[1:] for r in reads)
+    okp = 'header' in params and bool(reads) and all(_hdr_base(r) in HDR_FORMS for r in reads) and \
+        (dflt or inline_default or len(aliases) > 1 or not any(isinstance(d, ast.Constant) and d.value is None for d in setup.args.defaults))
     chk.check(okp, 'C05-R8', CAT, SETUP, 'BoxSize and VelZSpace_to_kms are read from the header the setup was given', f'{[unparse(r) for r in reads]}',
               f'the unit factors are read as {[unparse(r) for r in reads]}: not from a header parameter, so a per-file rebuild cannot take effect', node=setup)
 
